@@ -126,8 +126,48 @@ def front_ends(path, style, options):
     return pt, p.returncode, nt, n.returncode, p.stdout.decode(errors='replace')[-1500:], n.stdout.decode(errors='replace')[-1500:]
 
 
+# a name defined twice with another documented callable in between (overload stubs, alternative definitions): the doctests share a
+# module-level list, so the ORDER in which a front end runs them decides their outcomes - both must use the same order
+RAW_REDEFINITION = '''STATE = []
+
+def lookup():
+    """
+    >>> print('stub')
+    stub
+    """
+
+def register():
+    """
+    >>> STATE.append(1)
+    >>> print(len(STATE))
+    1
+    """
+
+def lookup():
+    """
+    >>> print(len(STATE))
+    1
+    """
+
+def last():
+    """
+    >>> STATE.append(2)
+    >>> print(len(STATE))
+    2
+    """
+'''
+
+
 def _sub_worker(job):
     tmp, idx, kinds, layout, style, options = job
+    if layout == 'raw':
+        d = os.path.join(tmp, 'raw%d' % idx)
+        os.makedirs(d, exist_ok=True)
+        path = os.path.join(d, 'xdverif_c15_m%d.py' % idx)
+        open(path, 'w').write(kinds)
+        pt, prc, nt, nrc, ptail, ntail = front_ends(path, style, options)
+        return dict(kinds=['raw'], layout=layout, style=style, options=options, ids=[], src=kinds,
+                    pytest=pt, pytest_rc=prc, native=nt, native_rc=nrc, ptail=ptail, ntail=ntail)
     # the module's directory: any legal name (blanks, braces, per cent signs, non-ASCII letters)
     d = os.path.join(tmp, ['m%d', 'dir with blank %d', 'proj{v%d}', '100%%s_%d', 'caf\xe9_%d'][idx % 5] % idx)
     os.makedirs(d, exist_ok=True)
@@ -215,6 +255,8 @@ def run(ctx):
         extra += [['disabled'] * len(modgen.DISABLE_WORDS) + ['pass'], ['pass'] + ['disabled'] * len(modgen.DISABLE_WORDS)]
         for kinds in extra:
             jobs.append((tmp, len(jobs) + 1000, kinds, 'functions', ['auto', 'freeform'][len(jobs) % 2], ''))
+        for st in ('auto', 'freeform'):
+            jobs.append((tmp, len(jobs) + 1000, RAW_REDEFINITION, 'raw', st, ''))
         # a callable named like a command word of the native runner (all, dump, list), force-disabled or not: `all` still means all
         for special in ('all', 'dump', 'list'):
             for kinds in (['disabled', 'pass', 'pass'], ['disabled', 'fail_output', 'pass'], ['fail_output', 'pass'], ['pass', 'disabled']):
